@@ -1,8 +1,11 @@
 (* Name-section engine (C29): how names are consumed while parsing, what the naming calls do, and which name
    section Module::encode_internal builds.  Mirrors mod.rs:99-108 (stored maps), 381-404 (function names are
    moved onto the import / code entries), 1239-1250 and 1677-1679 (function names are rebuilt from the import
-   entries in import-vector order and from the bodies by position in the function vector), 1745-1762 (every
-   other map is written back as parsed), 2036 (Module::set_fn_name), module_functions.rs:529-549,
+   entries in import-vector order and from the bodies by position in the function vector), the name-section
+   builder at the end of encode_internal (the local / label maps are re-indexed through the function id map, the
+   memory / global maps through theirs, the custom names of imported globals taking precedence - wrappers.rs
+   reindex_namemap / reindex_indirect_namemap -, the other maps
+   are written back as parsed), Module::set_fn_name, forget_local_names, module_functions.rs:529-549,
    module_imports.rs:122-142, function.rs:46-100 (FunctionBuilder name handling).
    The index spaces and the edit API are the ones of Model/Reindex.v.
    Names are tokens: `n<k>` is k; the import field name `i<fp>` used as a name is [tok_import fp]. *)
@@ -25,8 +28,10 @@ Definition nset (m : nmap) (k v : N) : nmap := (k, v) :: filter (fun kv => negb 
 Definition ndel (m : nmap) (k : N) : nmap := filter (fun kv => negb (N.eqb (fst kv) k)) m.
 
 (* [ns_imp]: Import::custom_name by position in the import vector (= ImportsID);
-   [ns_body]: LocalFunction::body.name by position in the function vector before recalculate_ids (= stored id) *)
-Record nst := mkNS { ns_m : mst; ns_imp : nmap; ns_body : nmap }.
+   [ns_body]: LocalFunction::body.name by position in the function vector before recalculate_ids (= stored id);
+   [ns_forgot]: the function ids whose entries were removed from Module::local_names / label_names
+   (forget_local_names: the function was converted, its body - or signature - is another one now) *)
+Record nst := mkNS { ns_m : mst; ns_imp : nmap; ns_body : nmap; ns_forgot : list N }.
 
 (* ---------- parsing: function names go to the k-th function import / the code entry ---------- *)
 Fixpoint nth_func_import (pos : N) (k : N) (l : list imp) : option N :=
@@ -51,7 +56,7 @@ Fixpoint parse_fnames (m : mst) (nlocal : N) (fn : nmap) (acc : nmap * nmap) : r
   end.
 Definition parse_names (m : mst) (nlocal : N) (n : names) : res nst :=
   match parse_fnames m nlocal (n_funcs n) ([], []) with
-  | Ok (i, b) => Ok (mkNS m i b)
+  | Ok (i, b) => Ok (mkNS m i b [])
   | Panic w => Panic w
   end.
 
@@ -68,7 +73,7 @@ Inductive nop :=
    included), as the parser does: the id-th function entry of the import vector *)
 Definition imp_set_fn_name (s : nst) (id t : N) : nst :=
   match nth_func_import 0 id (m_imports (ns_m s)) with
-  | Some k => mkNS (ns_m s) (nset (ns_imp s) k t) (ns_body s)
+  | Some k => mkNS (ns_m s) (nset (ns_imp s) k t) (ns_body s) (ns_forgot s)
   | None => s
   end.
 
@@ -79,18 +84,24 @@ Definition nstep (s : nst) (o : nop) : res (nst * option N) :=
       match step m e with
       | Panic w => Panic w
       | Ok (m', r) =>
-          let s' := mkNS m' (ns_imp s) (ns_body s) in
+          let s' := mkNS m' (ns_imp s) (ns_body s) (ns_forgot s) in
           match e with
           | AddLocal SF _ =>
               (* add_local_func(.., name): set_local_fn_name(id, name) when the builder has a name *)
               match bname, r with
-              | Some t, Some id => Ok (mkNS m' (ns_imp s) (nset (ns_body s) id t), r)
+              | Some t, Some id => Ok (mkNS m' (ns_imp s) (nset (ns_body s) id t) (ns_forgot s), r)
               | _, _ => Ok (s', r)
               end
           | LocalToImport id _ =>
               match nthN (s_items (m_f m)) id with
               | Some it => if is_import it then Ok (s', r)
-                           else Ok (mkNS m' (ns_imp s) (ndel (ns_body s) id), r)   (* the body is dropped; custom_name: None *)
+                           else
+                             (* the body is dropped, its name becomes the custom_name of the new import entry (pushed at the
+                                end of the import vector); the names of its locals and labels are forgotten *)
+                             Ok (mkNS m' (match lookup (ns_body s) id with
+                                          | Some t => nset (ns_imp s) (lenN (m_imports m)) t
+                                          | None => ns_imp s
+                                          end) (ndel (ns_body s) id) (id :: ns_forgot s), r)
               | None => Ok (s', r)
               end
           | ImportToLocal k _ =>
@@ -98,7 +109,8 @@ Definition nstep (s : nst) (o : nop) : res (nst * option N) :=
                  carries import entry k *)
               match nthN (m_imports m) k, find_imp (s_items (m_f m)) k 0 with
               | Some im, Some p =>
-                  Ok (mkNS m' (ns_imp s) (nset (ns_body s) p (match bname with Some t => t | None => tok_import (i_fp im) end)), r)
+                  Ok (mkNS m' (ns_imp s) (nset (ns_body s) p (match bname with Some t => t | None => tok_import (i_fp im) end))
+                           (p :: ns_forgot s), r)
                   (* local_func.body.name = self.name.or_else(|| Some(imp.name)): the builder's name, else the import's field name *)
               | _, _ => Ok (s', r)                                                 (* refused *)
               end
@@ -111,20 +123,20 @@ Definition nstep (s : nst) (o : nop) : res (nst * option N) :=
       | None => Panic 61                                      (* functions[id]: index out of bounds *)
       | Some it =>
           match it_imp it with
-          | Some k => if k <? lenN (m_imports m) then Ok (mkNS m (nset (ns_imp s) k t) (ns_body s), None)
+          | Some k => if k <? lenN (m_imports m) then Ok (mkNS m (nset (ns_imp s) k t) (ns_body s) (ns_forgot s), None)
                       else Panic 64                           (* imports[import_id]: index out of bounds *)
-          | None => Ok (mkNS m (ns_imp s) (nset (ns_body s) id t), None)
+          | None => Ok (mkNS m (ns_imp s) (nset (ns_body s) id t) (ns_forgot s), None)
           end
       end
   | NSetLocalFn id t =>
       match nthN (s_items (m_f m)) id with
       | None => Panic 61
       | Some it => if is_import it then Ok (s, Some 0)
-                   else Ok (mkNS m (ns_imp s) (nset (ns_body s) id t), Some 1)
+                   else Ok (mkNS m (ns_imp s) (nset (ns_body s) id t) (ns_forgot s), Some 1)
       end
   | NImpSetFn id t => Ok (imp_set_fn_name s id t, None)
   | NImpSetName k t =>
-      if k <? lenN (m_imports m) then Ok (mkNS m (nset (ns_imp s) k t) (ns_body s), None)
+      if k <? lenN (m_imports m) then Ok (mkNS m (nset (ns_imp s) k t) (ns_body s) (ns_forgot s), None)
       else Panic 64                                           (* imports[k]: index out of bounds *)
   end.
 
@@ -155,21 +167,61 @@ Fixpoint emit_body_names (pos : N) (l : list item) (nm : nmap) : nmap :=
            | None => emit_body_names (pos + 1) l' nm
            end
   end.
+(* the same loop collects the custom names of the emitted *global* imports under their global index (D202) *)
+Fixpoint emit_imp_gnames (idx : N) (imports : list imp) (order : list N) (nm : nmap) : nmap :=
+  match order with
+  | [] => []
+  | k :: o' =>
+      if N.eqb (fst (import_at imports k)) 1 then
+        match lookup nm k with
+        | Some t => (idx, t) :: emit_imp_gnames (idx + 1) imports o' nm
+        | None => emit_imp_gnames (idx + 1) imports o' nm
+        end
+      else emit_imp_gnames idx imports o' nm
+  end.
+(* reindex_namemap: a name given through the import entry replaces the parsed one of that (new) index *)
+Fixpoint rename_all (l : nmap) (renamed : nmap) : nmap :=
+  match renamed with
+  | [] => l
+  | (idx, t) :: r' => rename_all (filter (fun kv => negb (N.eqb (fst kv) idx)) l ++ [(idx, t)]) r'
+  end.
 Definition emit_fnames (s : nst) (lf lg lm : list item) : nmap :=
   emit_imp_names 0 (m_imports (ns_m s)) (emitted_imports (m_imports (ns_m s)) lf lg lm) (ns_imp s)
   ++ emit_body_names 0 lf (ns_body s).
 
-(* every other map is the one that was parsed (D21) *)
-Definition emit_names (base : names) (s : nst) (lf lg lm : list item) : names :=
-  mkNames (n_module base) (emit_fnames s lf lg lm) (n_locals base) (n_labels base) (n_types base) (n_tables base)
-          (n_mems base) (n_globals base) (n_elems base) (n_datas base) (n_tags base).
+Definition import_global_names (s : nst) (lf lg lm : list item) : nmap :=
+  emit_imp_gnames 0 (m_imports (ns_m s)) (emitted_imports (m_imports (ns_m s)) lf lg lm) (ns_imp s).
+
+(* reindex_names (wrappers.rs): every entry whose index has an entry in the id map moves to the new index, the others
+   (names of deleted entities) are dropped; then a stable sort by the new index *)
+Definition reindex {B} (mp : list (N * N)) (l : list (N * B)) : list (N * B) :=
+  flat_map (fun kv => match lookup mp (fst kv) with Some q => [(q, snd kv)] | None => [] end) l.
+Fixpoint insert_key {B} (x : N * B) (l : list (N * B)) : list (N * B) :=
+  match l with
+  | [] => [x]
+  | y :: t => if fst x <=? fst y then x :: y :: t else y :: insert_key x t
+  end.
+Definition sort_key {B} (l : list (N * B)) : list (N * B) := fold_right insert_key [] l.
+Definition remembered {B} (forgot : list N) (l : list (N * B)) : list (N * B) :=
+  filter (fun kv => negb (existsb (N.eqb (fst kv)) forgot)) l.
+
+(* the local / label maps follow their function, the memory / global maps their memory / global; every other map is
+   the one that was parsed *)
+Definition emit_names (base : names) (s : nst) (lf lg lm : list item) (mf mg mm : list (N * N)) : names :=
+  mkNames (n_module base) (emit_fnames s lf lg lm)
+          (sort_key (reindex mf (remembered (ns_forgot s) (n_locals base))))
+          (sort_key (reindex mf (remembered (ns_forgot s) (n_labels base))))
+          (n_types base) (n_tables base)
+          (sort_key (reindex mm (n_mems base)))
+          (sort_key (rename_all (reindex mg (n_globals base)) (import_global_names s lf lg lm)))
+          (n_elems base) (n_datas base) (n_tags base).
 
 Definition nencode (base : names) (s : nst) : res (emod * names) :=
   match encode (ns_m s) [] [] with
   | Panic w => Panic w
   | Ok e =>
       match index_space (m_f (ns_m s)), index_space (m_g (ns_m s)), index_space (m_m (ns_m s)) with
-      | Ok (lf, _), Ok (lg, _), Ok (lm, _) => Ok (e, emit_names base s lf lg lm)
+      | Ok (lf, mf), Ok (lg, mg), Ok (lm, mm) => Ok (e, emit_names base s lf lg lm mf mg mm)
       | Panic w, _, _ | _, Panic w, _ | _, _, Panic w => Panic w
       end
   end.
